@@ -260,10 +260,22 @@ class Renderer:
         b = self.bases[base]
         file_items, block_items = [], []
         if pos != "none":
-            fm = frag["form"]
+            inner, drops = frag, []
+            while inner["form"] == "drop":      # the fragment with the last occurrence of a token removed
+                drops.append(inner["tok"])
+                inner = inner["of"]
+            fm = inner["form"]
             isexpr = fm in self.EXPR_FORMS
+            text = self.expr(inner) if isexpr else self.item(inner)
+            if text is None:   # misc vla_static: a static object of variably modified type
+                text = "int zv[gi];" if pos == "file" else "static int zv[li];"
+            for tok in reversed(drops):
+                i = text.rfind(tok)
+                if i < 0:
+                    raise ValueError("token %r to drop does not occur in %r" % (tok, text))
+                text = text[:i] + " " + text[i + len(tok):]
             if isexpr:
-                e = self.expr(frag)
+                e = text
                 if pos == "file":
                     file_items.append("unsigned long zsz = sizeof((%s), 1);" % e)
                 elif pos == "block":
@@ -274,9 +286,7 @@ class Renderer:
                     file_items.append("#define ZM (%s)" % e)
                     block_items.append("ZM;")
             else:
-                it = self.item(frag)
-                if it is None:   # misc vla_static: a static object of variably modified type
-                    it = "int zv[gi];" if pos == "file" else "static int zv[li];"
+                it = text
                 if pos == "file":
                     file_items.append(it)
                 elif pos == "block":
